@@ -151,7 +151,7 @@ func (ch *chain) queryData(q *hQuery) []byte {
 type hBlock struct {
 	DTSec      int64       `json:"dt_sec"`
 	DTNano     int64       `json:"dt_nano,omitempty"`
-	Proposer   int         `json:"proposer"` // index (mod) into the current Tendermint set; -1 unknown address; -2 pool key 9
+	Proposer   int         `json:"proposer"` // index (mod) into the current Tendermint set; -1 unknown address; -2 pool key 9; -3 no address at all
 	Missed     []int       `json:"missed,omitempty"`
 	MissedKeys []int       `json:"missed_keys,omitempty"` // key-pool indices whose validators (if in the last set) did not sign
 	Evidence   []hEvidence `json:"evidence,omitempty"`
@@ -517,6 +517,8 @@ func (ch *chain) run(o chainOracle) *Violation {
 		switch {
 		case b.Proposer == -1 || len(sortedCur) == 0:
 			proposer = bytes.Repeat([]byte{0xEE}, sdk.AddrLen)
+		case b.Proposer == -3:
+			proposer = nil // a header that names no proposer (ABCI drivers other than Tendermint, test networks)
 		case b.Proposer == -2:
 			proposer = ch.pool[9].Addr
 		default:
